@@ -131,11 +131,12 @@ def occurrence_table(ctx: Ctx) -> None:
         ids = {n.id for n in under}
         got: dict[str, set[str]] = {"min_occurs": set(), "max_occurs": set()}
         for r in [n for n in under if n.kind == "stmt" and isinstance(n.ast, ast.Return) and n.ast.value is not None]:
-            for dct in [x for x in ast.walk(r.ast.value) if isinstance(x, ast.Dict)]:
-                for kk, vv in zip(dct.keys, dct.values):
-                    if isinstance(kk, ast.Constant) and kk.value in got:
-                        for leaf in d.values_under(fi, key, r, vv):
-                            got[kk.value].add(unparse(leaf))
+            pairs = [(kk.value, vv) for dct in ast.walk(r.ast.value) if isinstance(dct, ast.Dict) for kk, vv in zip(dct.keys, dct.values) if isinstance(kk, ast.Constant)]
+            pairs += [(k_.arg, k_.value) for c_ in ast.walk(r.ast.value) if isinstance(c_, ast.Call) and isinstance(c_.func, ast.Name) and c_.func.id == "dict" for k_ in c_.keywords if k_.arg]
+            for kname, vv in pairs:
+                if kname in got:
+                    for leaf in d.values_under(fi, key, r, vv):
+                        got[kname].add(unparse(leaf))
         ctx.ob(f"occurrence {k} -> ({lo}, {hi})", got["min_occurs"] == {lo} and got["max_occurs"] == {hi}, at=fi, construct=f"occurs {k}", msg=f"mapped to ({sorted(got['min_occurs'])}, {sorted(got['max_occurs'])})")
     bc = ctx.repo.func(f"{DM}:DtdMapper.build_content")
     dc = _enum_dispatch(bc, "DtdContentType")
@@ -290,7 +291,8 @@ def xmlns_attributes(ctx: Ctx) -> None:
     # bindings taken from the element's own attributes (value = <attribute>.default_value, through temporaries) - not the built-in prefixes
     sets = [(st, tgt) for st, tgt, v in stores(fi.node) if isinstance(tgt, ast.Subscript) and isinstance(tgt.value, ast.Name) and tgt.value.id in ret_names and v is not None
             and any(isinstance(x, ast.Attribute) and x.attr == "default_value" for leaf in leaves_at(fi, st, v) for x in ast.walk(leaf))]
-    ctx.floor("xmlns binding stores", len(sets), 1)
+    if not sets:
+        ctx.abstain("xmlns binding stores of build_ns_map", at=fi)
     rem = [x for x in g.stmts() if any(isinstance(c.func, ast.Attribute) and c.func.attr == "remove" and unparse(c.func.value) == "attributes" for c in node_calls(x))]
     loops = [n for n in g.nodes if n.kind == "for"]
     for i, (st, tgt) in enumerate(sets):
@@ -480,8 +482,20 @@ def types_registered_before_emission(ctx: Ctx) -> None:
         f = cls_.methods[m]
         for y in walk_no_nested(f.node):
             if isinstance(y, ast.Yield) and y.value is not None:
-                callsin = [c for c in ast.walk(y.value) if isinstance(c, ast.Call)]
-                direct = [c for c in callsin if not (unparse(c) == "str(obj)")]
+                # the values held by the container: items of a loop over obj / obj.items() / obj.values(), and getattr(obj, ...) results
+                children: set[str] = set()
+                for lp in walk_no_nested(f.node):
+                    if isinstance(lp, ast.For):
+                        it = lp.iter
+                        base = it.func.value if isinstance(it, ast.Call) and isinstance(it.func, ast.Attribute) and it.func.attr in ("items", "values", "keys") else (
+                            it.args[0] if isinstance(it, ast.Call) and isinstance(it.func, ast.Name) and it.func.id in ("enumerate", "iter", "list", "tuple", "sorted", "reversed") and it.args else it)
+                        if "obj" in value_texts(f, lp, base):
+                            children |= {x.id for x in ast.walk(lp.target) if isinstance(x, ast.Name)}
+                for st_, tgt_, v_ in stores(f.node):
+                    if isinstance(tgt_, ast.Name) and isinstance(v_, ast.Call) and call_name_of(v_) == "getattr" and v_.args and unparse(v_.args[0]) == "obj":
+                        children.add(tgt_.id)
+                direct = [x for x in ast.walk(y.value) if isinstance(x, ast.Name) and isinstance(x.ctx, ast.Load) and x.id in children]
+                direct += [c for c in ast.walk(y.value) if isinstance(c, ast.Call) and isinstance(c.func, ast.Name) and c.func.id in ("repr", "str", "format") and unparse(c) != "str(obj)"]
                 ctx.ob(f"{m}: `yield {unparse(y.value)[:40]}` formats no child value itself", not direct, at=f, node=y,
                        msg="a child value is formatted directly instead of through repr_object: its type is not collected for the imports and nested models/enums are rendered with the wrong repr")
     w = cls_.methods["write"]
@@ -538,10 +552,10 @@ def emitted_head_is_imported_name(ctx: Ctx) -> None:
     whole = A(" ".join(unparse(f.node) for f in family(ctx.repo, bi)))
     for t, node, conds, fx in froms:
         holes = [v for k, v in t if k == "hole"]
-        mod_forms = forms(fx, node, holes[0])
+        mod_forms = forms(fx, node, holes[0]) | _caller_forms(ctx, bi, fx, node, holes[0])
         ctx.ob("build_imports takes the module from tp.__module__", "_.__module__" in mod_forms, at=bi, construct="import module source", msg=f"module is {sorted(mod_forms)[:2]}")
         name_leaves = [leaf for leaf, _ in flows(fx, node, holes[1])]
-        name_src = " ".join(sorted({x for leaf in name_leaves for x in forms(fx, node, leaf)} | {anon_text(leaf, fx.node) for leaf in name_leaves}))
+        name_src = " ".join(sorted({x for leaf in name_leaves for x in forms(fx, node, leaf)} | {anon_text(leaf, fx.node) for leaf in name_leaves} | _caller_forms(ctx, bi, fx, node, holes[1])))
         leaf_texts = {t for leaf in name_leaves for t in value_texts(fx, node, leaf)} | {unparse(leaf) for leaf in name_leaves}
         first_part = re.compile(r"""\.(split|partition)\(['"]\.['"](,\s*1)?\)\[0\]""")
         top = any(first_part.search(t) for t in leaf_texts) or any(first_part.search(unparse(x)) for f_ in family(ctx.repo, bi) for x in ast.walk(f_.node) if isinstance(x, ast.Subscript))
@@ -551,6 +565,24 @@ def emitted_head_is_imported_name(ctx: Ctx) -> None:
         ctx.ob("builtins are not imported", any(("'builtins'" in txt and (("!=" in txt and pol) or ("==" in txt and not pol))) for txt, pol in conds), at=bi, construct="builtins skipped", msg="from builtins import ...")
     rv = return_values(bi.node)
     ctx.ob("build_imports returns the sorted, de-duplicated lines", bool(rv) and all(any(isinstance(c, ast.Call) and call_name_of(c) == "sorted" for c in ast.walk(v)) for v in rv), at=bi, construct="imports sorted", msg="import order depends on set iteration")
+
+
+def _caller_forms(ctx: Ctx, root: FuncInfo, fx: FuncInfo, node, e: ast.expr) -> set[str]:
+    """When a value of helper ``fx`` comes from one of its parameters: the forms of the corresponding argument at the call sites in the
+    family of ``root`` (the helper was given `tp.__module__` instead of `tp`)."""
+    out: set[str] = set()
+    if fx is root:
+        return out
+    params = [a.arg for a in fx.params]
+    for leaf, _ in flows(fx, node, e):
+        for nm in [x for x in ast.walk(leaf) if isinstance(x, ast.Name) and x.id in params]:
+            for f_ in family(ctx.repo, root):
+                for c in calls_in(f_.node):
+                    if call_name_of(c) == fx.name:
+                        a = call_param(ctx, f_, c, nm.id)
+                        if a is not None:
+                            out |= {anon_text(a, f_.node)} | {t.replace(" ", "") for t in value_texts(f_, c, a)}
+    return out
 
 
 def _import_statements(ctx: Ctx, bi: FuncInfo):
